@@ -372,6 +372,17 @@ func checkC20(c *core.Ctx) {
 					rs = append(rs, standardRules[p])
 				}
 			}
+			if i%4 == 1 {
+				// the without-suggestions variants in place of their base rules
+				rs = append([]validator.Rule{}, rs...)
+				for k := range rs {
+					for _, v := range variantRules {
+						if rs[k].Name == v.Base.Name {
+							rs[k] = v.Variant
+						}
+					}
+				}
+			}
 			var names []string
 			for _, x := range rs {
 				names = append(names, x.Name)
